@@ -73,6 +73,15 @@ func main() {
 	}
 	tgen := time.Since(t0).Seconds()
 	dischargeAll(obs, dir, *timeout, *agree, runtime.NumCPU())
+	for _, r := range results {
+		if r.Vacuity != "" {
+			f := dir + "/vacuity_" + sanitize(r.Func) + ".smt2"
+			os.WriteFile(f, []byte(r.Vacuity), 0o644)
+			st, _ := runSolver(solvers[0], f, 5)
+			r.VacuityStatus = st
+			r.Vacuity = ""
+		}
+	}
 	bad := 0
 	for _, r := range results {
 		if len(r.Unsupported) > 0 {
